@@ -625,7 +625,7 @@ class SymX:
             key = self.place_key(e["l"])
             for s, vals in self.seq([e["l"], e["r"]], st):
                 s2 = s.fork()
-                nv = ("bin", e["op"], vals[0], vals[1])
+                nv = ("bin", e["op"].replace("Assign", ""), vals[0], vals[1])
                 if key is not None:
                     s2.env[key] = nv
                 s2.log(("call", "<assignop>", [("lit", show(e["l"])), ("lit", e["op"]), vals[1]], e))
@@ -797,6 +797,14 @@ def simp(t):
         if t[1] == "Not" and x[0] == "un" and x[1] == "Not":
             return x[2]
         return ("un", t[1], x)
+    if k == "bin":
+        a, b = simp(t[2]), simp(t[3])
+        # (x + c) - c  ->  x   (the only arithmetic the rules need)
+        if t[1] == "Sub" and a[0] == "bin" and a[1] == "Add" and a[3] == b and b[0] == "lit":
+            return a[2]
+        return ("bin", t[1], a, b)
+    if k == "index":
+        return ("index", simp(t[1]), simp(t[2]))
     if k == "ctor":
         if isinstance(t[2], dict):
             return ("ctor", t[1], {n: simp(v) for n, v in t[2].items()})
